@@ -8,7 +8,7 @@ import itertools
 
 from . import bits as B
 from . import solver
-from .lin import (FALSE, INT_BITS, INT_MAX, TRUE, Lin, dnf, eq, f_and, f_not, f_or, flit, ge, gt, le, lin,
+from .lin import (FALSE, INT_BITS, INT_MAX, INT_MIN, SIGNED, TRUE, Lin, dnf, eq, f_and, f_not, f_or, flit, ge, gt, le, lin,
                   lt, ne, neg_lit, show_formula, show_pc)
 from .values import *
 
@@ -796,6 +796,8 @@ class Interp:
         kind = e["kind"]
         if kind == "int":
             v = int(e["v"])
+            if e.get("neg"):
+                v = -v
             return [(st, "val", IntV(v, self.int_ty(e) or "usize"))]
         if kind == "bool":
             return [(st, "val", BTRUE if e["v"] else BFALSE)]
@@ -1157,14 +1159,19 @@ class Interp:
                     return [(s, "val", BoolV(f_not(v.f)))]
                 if isinstance(v, IntV):
                     w = INT_BITS.get(v.ty, 64)
-                    bits = B.to_bits(v.l, w)
+                    bits = B.to_bits(v.l, w) if v.ty not in SIGNED else None
                     if bits is not None:
                         r = B.from_bits(B.b_not(bits))
                         if r is not None:
                             return [(s, "val", IntV(r, v.ty))]
+                    if v.ty in SIGNED:
+                        return [(s, "val", IntV(lin(-1) - v.l, v.ty))]      # !x == -x - 1 in two's complement
                     # !x == max - x
                     return [(s, "val", IntV(lin(INT_MAX[v.ty]) - v.l, v.ty))]
             if e["op"] == "Neg":
+                if isinstance(v, IntV) and v.ty in SIGNED:
+                    return [(s2, "val", IntV(lin(0) - v.l, v.ty))
+                            for s2 in self.oblige(s, flit(ne(v.l, INT_MIN[v.ty])), "overflow-neg", e)]
                 return [(s, "val", Opaque("neg"))]
             return [(s, "val", Opaque("unary " + e["op"]))]
 
@@ -1200,6 +1207,8 @@ class Interp:
             return [(st, Opaque("binop " + op))]
         A, Bl = a.l, b.l
         ty = a.ty
+        if ty in SIGNED or (b.ty in SIGNED and op not in ("Shl", "Shr")):
+            return self.binop_signed(st, op, a, b, e)
         mx = INT_MAX.get(ty, 2**64 - 1)
         if op == "Add":
             r = A + Bl
@@ -1235,7 +1244,10 @@ class Interp:
         w = INT_BITS.get(ty, 64)
         if op in ("Shl", "Shr"):
             outs = []
-            for s in self.oblige(st, flit(lt(Bl, w)), "overflow-" + op.lower(), e):
+            amount_ok = flit(lt(Bl, w))
+            if b.ty in SIGNED and not (Bl.is_const() and Bl.c >= 0):
+                amount_ok = f_and(flit(ge(Bl, 0)), amount_ok)
+            for s in self.oblige(st, amount_ok, "overflow-" + op.lower(), e):
                 if Bl.is_const():
                     bits = B.to_bits(A, w)
                     r = None
@@ -1257,6 +1269,72 @@ class Interp:
             return [(st, IntV(Lin.atom(("opq", ("bitop", op, A.key(), Bl.key()), ty)), ty))]
         self.note("opaque-binop", e, op)
         return [(st, self.fresh_int("binop", ty))]
+
+    def binop_signed(self, st, op, a, b, e):
+        """arithmetic when an operand has a signed type: linear arithmetic with two-sided range obligations;
+        division, shifts and bitwise operators are exact only on operands proven non-negative, opaque otherwise"""
+        A, Bl = a.l, b.l
+        ty = a.ty
+        mn, mx = INT_MIN.get(ty, 0), INT_MAX.get(ty, 2**64 - 1)
+
+        def rng(r):
+            return f_and(flit(ge(r, mn)), flit(le(r, mx)))
+
+        if op in ("Lt", "Le", "Gt", "Ge", "Eq", "Ne"):
+            f = {"Lt": lt, "Le": le, "Gt": gt, "Ge": ge, "Eq": eq, "Ne": ne}[op](A, Bl)
+            return [(st, BoolV(flit(f)))]
+        if op == "Add":
+            return [(s, IntV(A + Bl, ty)) for s in self.oblige(st, rng(A + Bl), "overflow-add", e)]
+        if op == "Sub":
+            return [(s, IntV(A - Bl, ty)) for s in self.oblige(st, rng(A - Bl), "overflow-sub", e)]
+        if op == "Mul":
+            if A.is_const():
+                r = Bl.scale(A.c)
+            elif Bl.is_const():
+                r = A.scale(Bl.c)
+            else:
+                self.note("nonlinear", e, f"{A} * {Bl}")
+                return [(st, self.fresh_int("mul", ty))]
+            return [(s, IntV(r, ty)) for s in self.oblige(st, rng(r), "overflow-mul", e)]
+        nonneg = solver.entails(st.pc, f_and(flit(ge(A, 0)), flit(ge(Bl, 0))))
+        if op in ("Div", "Rem"):
+            outs = []
+            for s in self.oblige(st, flit(ne(Bl, 0)), "div-zero", e):
+                for s2 in self.oblige(s, f_or(flit(ne(A, mn)), flit(ne(Bl, -1))), "overflow-div", e) if ty in SIGNED else [s]:
+                    if nonneg and Bl.is_const() and Bl.c > 0:
+                        if A.is_const():
+                            outs.append((s2, IntV(A.c // Bl.c if op == "Div" else A.c % Bl.c, ty)))
+                        else:
+                            outs.append((s2, IntV(Lin.atom(("div" if op == "Div" else "mod", A.key(), Bl.c)), ty)))
+                    else:
+                        self.note("nonlinear", e, f"signed {A} {op} {Bl}")
+                        outs.append((s2, self.fresh_int("sdiv", ty)))
+            return outs
+        w = INT_BITS.get(ty, 64)
+        if op in ("Shl", "Shr"):
+            outs = []
+            for s in self.oblige(st, f_and(flit(ge(Bl, 0)), flit(lt(Bl, w))), "overflow-" + op.lower(), e):
+                if Bl.is_const() and solver.entails(s.pc, flit(ge(A, 0))):
+                    c = Bl.c
+                    if op == "Shr":
+                        outs.append((s, IntV(Lin.atom(("div", A.key(), 1 << c)) if c else A, ty)))
+                        continue
+                    if solver.entails(s.pc, flit(le(A.scale(1 << c), mx))):
+                        outs.append((s, IntV(A.scale(1 << c), ty)))
+                        continue
+                self.note("opaque-shift", e, f"signed {A} {op} {Bl}")
+                outs.append((s, self.fresh_int("sshift", ty)))
+            return outs
+        if op in ("BitAnd", "BitOr", "BitXor") and nonneg:
+            ba, bb = B.to_bits(A, w), B.to_bits(Bl, INT_BITS.get(b.ty, 64))
+            if ba is not None and bb is not None:
+                bb = B.b_cast(bb, w)
+                rb = {"BitAnd": B.b_and, "BitOr": B.b_or, "BitXor": B.b_xor}[op](ba, bb)
+                r = B.from_bits(rb)
+                if r is not None:
+                    return [(st, IntV(r, ty))]
+        self.note("opaque-binop", e, f"signed {A} {op} {Bl}")
+        return [(st, self.fresh_int("sbinop", ty))]
 
     def symbolic_shift(self, st, op, a, b, e):
         """shift by a non-constant amount: a deterministic opaque term (same inputs, same atom)"""
@@ -1284,12 +1362,15 @@ class Interp:
         def fn(s, vs):
             v = vs[0]
             if isinstance(v, IntV) and tgt:
-                return [(s, "val", self.cast_int(s, v, tgt, e))]
+                return [(s2, "val", r) for s2, r in self.cast_int(s, v, tgt, e)]
             if isinstance(v, BoolV) and tgt:
-                return [(s, "val", self.bool_to_int(s, v, tgt))]
+                return [(s2, "val", r) for s2, r in self.bool_to_int_split(s, v, tgt)]
             return [(s, "val", v)]
 
         return self.seq([e["src"]], st, fn)
+
+    def bool_to_int_split(self, st, v, ty):
+        return [(s, IntV(1, ty)) for s in self.assume(st, v.f)] + [(s, IntV(0, ty)) for s in self.assume(st, f_not(v.f))]
 
     def bool_to_int(self, st, v, ty):
         if v.f == TRUE:
@@ -1299,19 +1380,35 @@ class Interp:
         return self.fresh_int("boolint", ty)
 
     def cast_int(self, st, v, tgt, e=None):
+        """`v as tgt`: list of (state, value).  The result is v reduced into tgt's range modulo 2^width."""
         w_src, w_tgt = INT_BITS.get(v.ty, 64), INT_BITS.get(tgt, 64)
+        if v.ty in SIGNED or tgt in SIGNED:
+            mn, mx = INT_MIN[tgt], INT_MAX[tgt]
+            if solver.entails(st.pc, f_and(flit(ge(v.l, mn)), flit(le(v.l, mx)))):
+                return [(st, IntV(v.l, tgt))]
+            smn, smx = INT_MIN.get(v.ty, 0), INT_MAX.get(v.ty, 2**64 - 1)
+            m = 1 << w_tgt
+            k0, k1 = (smn - mn) // m, (smx - mn) // m
+            if k1 - k0 <= 2:
+                outs = []
+                for k in range(k0, k1 + 1):
+                    for s in self.assume(st, f_and(flit(ge(v.l, mn + k * m)), flit(le(v.l, mx + k * m)))):
+                        outs.append((s, IntV(v.l - k * m, tgt)))
+                return outs
+            self.note("lossy-cast", e, f"{v.l} as {tgt}")
+            return [(st, IntV(Lin.atom(("mod", (v.l - mn).key(), m)) + mn, tgt))]
         if w_tgt >= w_src:
-            return IntV(v.l, tgt)
+            return [(st, IntV(v.l, tgt))]
         mx = INT_MAX[tgt]
         if solver.entails(st.pc, flit(le(v.l, mx))):
-            return IntV(v.l, tgt)
+            return [(st, IntV(v.l, tgt))]
         self.note("lossy-cast", e, f"{v.l} as {tgt} under {show_pc(st.pc)[:300]}")
         bits = B.to_bits(v.l, w_src)
         if bits is not None:
             r = B.from_bits(B.b_cast(bits, w_tgt))
             if r is not None:
-                return IntV(r, tgt)
-        return IntV(Lin.atom(("mod", v.l.key(), 1 << w_tgt)), tgt)
+                return [(st, IntV(r, tgt))]
+        return [(st, IntV(Lin.atom(("mod", v.l.key(), 1 << w_tgt)), tgt))]
 
     # ------------------------------------------------------------------ loops
     def ev_Loop(self, e, st):
